@@ -96,6 +96,9 @@ def fam_status(rnd, tier):
                                 continue
                             c = base(proto, shape, codec=rnd.choice(["proto", "json"]), tag="status")
                             c["script"] = recv_all(c) + [act("send", size=2) for _ in range(after)] + [act("ret", code=code, msg=m, det=det)]
+                            if after == 0 and code != 0 and rnd.random() < 0.15:
+                                # a mux that restricts the size of reply MESSAGES: a status is not a reply message, however long
+                                c["maxsend"] = rnd.choice([8, 32, 64])
                             out.append(c)
     rnd.shuffle(out)
     out = out[: (6000 if tier == "quick" else 120000)]
